@@ -505,11 +505,14 @@ func (P) Gen(r *core.Rand, tier string, emit func([]string)) {
 	if tier == "thorough" {
 		races = 400
 	}
-	for i := 0; i < races; i++ {
-		emit([]string{"race " + strconv.FormatUint(r.U64()>>1, 10) + " " + strconv.Itoa(r.Range(4, 12)) + " " + strconv.Itoa(r.Range(2, 6)) + " " + strconv.Itoa(r.Range(50, 300))})
-	}
 	wide := n / 5
 	for i := 0; i < n; i++ {
+		if i == n/4 { // the concurrent tier, after enough sequential cases that a sequential defect is reported as such
+			rr := r.Fork()
+			for j := 0; j < races; j++ {
+				emit([]string{"race " + strconv.FormatUint(rr.U64()>>1, 10) + " " + strconv.Itoa(rr.Range(4, 12)) + " " + strconv.Itoa(rr.Range(2, 6)) + " " + strconv.Itoa(rr.Range(50, 300))})
+			}
+		}
 		if i%5 == 0 && i/5 < wide {
 			emit(wideCase(r.Fork(), 40))
 		}
